@@ -5,8 +5,8 @@
    State of the code: after the repairs of DESIGN section 11 #12 (NDP zero-length option),
    #19 (NBNS loop + node-name array), #20 (mDNS SkipAnswer), #21 (SSDP CACHE-CONTROL) and of
    the hop-by-hop length guard, and of #3 / #7 by the VIEWS cluster (IP4.IsValid, LLDP.getTLV),
-   the full-strength statements hold.  One class is left: the DHCPv4 reply encoded into the
-   request buffer beyond its capacity (EncodeDHCP4, ENCODE cluster): refuted / partial. *)
+   and of the DHCPv4 reply overrun (EncodeDHCP4, 720d31a, ENCODE cluster), every statement
+   holds at full strength: no defect class is left. *)
 From PV Require Import Base.Prelude Base.Slice.
 From PV Require Import Model.NDPOptions Model.MiscHopByHop Model.HandlersLoop Model.HandlersDnsMsg.
 From PV Require Import Model.MiscDecoders Model.HandlersProc.
@@ -183,26 +183,20 @@ Proof. exact arp_process_total. Qed.
 Print Assumptions C08_arp_total.
 
 (* DHCPv4 ProcessPacket / processClientPacket.  The one place where the processor writes: the
-   OFFER/ACK/NAK is encoded INTO the request buffer (EncodeDHCP4(p, ...), layer_dhcp4.go:355)
-   and p[240+pos] = End is stored without checking the capacity; the NAK carries the client
-   identifier back.  Refuted for a request of exactly the buffer size with a 60-byte identifier: *)
-Theorem C08_dhcp4_refuted :
-  bytes_ok dhcp_nak_w /\
-  known_C08_dhcp_reply_overrun (mkDhcpEnv false RNak false) (of_bytes dhcp_nak_w) = true /\
-  dhcp4_process 400 (mkDhcpEnv false RNak false) (of_bytes dhcp_nak_w) = Panic.
-Proof. exact dhcp4_refuted. Qed.
-Print Assumptions C08_dhcp4_refuted.
-
-(* total for every state (port, lease decision, reply size, log level) outside the class
-   "a reply is encoded, cap(p) >= 300 and cap(p) <= 240 + reply option bytes" *)
-Theorem C08_dhcp4_partial : forall e p, wf p -> known_C08_dhcp_reply_overrun e p = false ->
+   OFFER/ACK/NAK is encoded INTO the request buffer (EncodeDHCP4(p, ...), layer_dhcp4.go:355; the
+   NAK carries the client identifier back); with the capacity check of 720d31a: total for every
+   state (port, lease decision, reply size, log level) *)
+Theorem C08_dhcp4_total : forall e p, wf p ->
   forall fuel, (len p < fuel)%nat ->
   dhcp4_process fuel e p <> Panic /\ dhcp4_process fuel e p <> Fuel.
-Proof. exact dhcp4_process_partial. Qed.
-Print Assumptions C08_dhcp4_partial.
+Proof. exact dhcp4_process_total. Qed.
+Print Assumptions C08_dhcp4_total.
 
+(* the former witness of the reply overrun (60-byte client identifier, buffer of exactly the
+   request length) and a DISCOVER answered by an OFFER *)
 Example C08_dhcp4_nonvacuous :
-  known_C08_dhcp_reply_overrun (mkDhcpEnv false (ROther 33) true) (of_bytes (dhcp_sample ++ repeat 0 60)) = false /\
+  bytes_ok dhcp_nak_w /\
+  dhcp4_process 400 (mkDhcpEnv false RNak false) (of_bytes dhcp_nak_w) = Ok tt /\
   dhcp4_process 400 (mkDhcpEnv false (ROther 33) true) (of_bytes (dhcp_sample ++ repeat 0 60)) = Ok tt.
 Proof. exact dhcp4_nonvacuous. Qed.
 Print Assumptions C08_dhcp4_nonvacuous.
